@@ -227,7 +227,7 @@ def run_case(case, ctx):
         other_lib = other_dense = t
 
     if mode == "binop":
-        lhs = randn(*dense.shape) if fn != "@" else randn(*batch, 2, n)
+        lhs = randn(*dense.shape) if fn != "@" else (randn(n) if case["rseed"] % 3 == 0 else randn(*batch, 2, n))  # 1-D left operands too
         table = {"+": (lambda: lhs + op, lambda: lhs + dense), "-": (lambda: lhs - op, lambda: lhs - dense),
                  "*": (lambda: lhs * op, lambda: lhs * dense), "@": (lambda: lhs @ op, lambda: lhs @ dense)}
         judge("tensor" + fn + "op", *table[fn])
@@ -244,7 +244,7 @@ def run_case(case, ctx):
     f = _resolve(fn)
     if mode == "second":
         if fn == "matmul":
-            lhs = randn(*batch, 2, n)
+            lhs = randn(n) if case["rseed"] % 3 == 0 else randn(*batch, 2, n)
         else:
             lhs = randn(*dense.shape)
         base = dense
